@@ -611,7 +611,7 @@ func TestVerifC10(t *testing.T) {
 	c := &c10Ctx{t: t, rep: rep, r: r, root: root, replayCache: map[string][]byte{}}
 
 	var shapes []*c10Shape
-	nFake := vfScale(3, 10)
+	nFake := vfScale(3, 24)
 	for i := 0; i < nFake; i++ {
 		s := &c10Shape{name: fmt.Sprintf("fake-db+%dwal", i%4), db: c10FakeDB(r, r.Intn(30))}
 		for k := 0; k < i%4; k++ {
